@@ -391,12 +391,36 @@ func ruleC02f(c *Ctx) []*report.Result {
 		}
 		st[key] = v
 	}
-	havoc := func(st state, root ssa.Value, all bool) {
-		store(st, keyOf(root, "fmtFlags"), unknown)
-		if all {
-			store(st, keyOf(root, "wid"), unknown)
-			store(st, keyOf(root, "prec"), unknown)
+	// writtenBy: the flag paths a writer of the frame assigns through its
+	// receiver, itself or through the writers it calls on the same object
+	var writtenBy func(g *ssa.Function, depth int) []string
+	writtenBy = func(g *ssa.Function, depth int) []string {
+		set := map[string]bool{}
+		if depth > 4 || len(g.Params) == 0 {
+			return []string{"fmtFlags", "wid", "prec"}
 		}
+		for _, b := range g.Blocks {
+			for _, ins := range b.Instrs {
+				switch x := ins.(type) {
+				case *ssa.Store:
+					if root, sub, ok := flagPath(x.Addr); ok && root == ssa.Value(g.Params[0]) {
+						set[sub] = true
+					}
+				case ssa.CallInstruction:
+					if h := x.Common().StaticCallee(); h != nil && exempt[h] && len(x.Common().Args) > 0 && rootOfRecv(x.Common().Args[0]) == ssa.Value(g.Params[0]) {
+						for _, sub := range writtenBy(h, depth+1) {
+							set[sub] = true
+						}
+					}
+				}
+			}
+		}
+		var out []string
+		for k := range set {
+			out = append(out, k)
+		}
+		sort.Strings(out)
+		return out
 	}
 
 	instances := 0
@@ -537,8 +561,10 @@ func ruleC02f(c *Ctx) []*report.Result {
 						if local(root) {
 							break
 						}
-						havoc(cur, root, f.Name() != "clearflags")
-						lastStore[keyOf(root, "fmtFlags")] = ins.Pos()
+						for _, sub := range writtenBy(f, 0) {
+							store(cur, keyOf(root, sub), unknown)
+							lastStore[keyOf(root, sub)] = ins.Pos()
+						}
 					case *ssa.Return:
 						snap := state{}
 						for k, v := range cur {
@@ -591,7 +617,11 @@ func ruleC02f(c *Ctx) []*report.Result {
 				if ex.st[k].kind == 1 {
 					what = "the negation of its value on entry"
 				}
-				r.Fail(shortFn(fn.String())+" / "+sub+" restored on every return", c.P.Pos(ex.ret.Pos()),
+				rpos := c.P.Pos(ex.ret.Pos())
+				if rpos == "" || rpos == "?" || strings.HasSuffix(rpos, ":0") {
+					rpos = c.P.Pos(fn.Pos()) // the implicit return at the end of the body
+				}
+				r.Fail(shortFn(fn.String())+" / "+sub+" restored on every return", rpos,
 					fmt.Sprintf("this return leaves %s holding %s (last written at %s): the flag is changed for a sub-rendering and not put back on this path, so the rest of the operand — later elements, declared-safe ones included — is formatted differently depending on the value that took this path", sub, what, c.P.Pos(lastStore[k])), nil, "")
 			}
 		}
